@@ -89,6 +89,25 @@ REAL: Dict[str, List[Any]] = {
 }
 
 
+# adversarial text values for real `type: value` clauses (kind "realval"): quotes, backslashes, brackets and the logical
+# operators themselves INSIDE the string literal the rewriter emits
+ADV = ['say "hi', 'a && b', 'x || y ? z : w', 'back\\slash', "it's", '(', ')}]', 'q"(', '\\"', 'tab\there', 'new\nline',
+       '\u00fcn\u00ef', '// c', '""', "'''", 'plain']
+
+
+def realval_filter(leaf) -> Dict[str, Any]:
+    return {"type": "value", "key": f"k{leaf['i']}", "op": leaf["op"], "value": ADV[leaf["v"]]}
+
+
+def realval_resource(ls: List[Any], vals: List[bool]) -> Dict[str, str]:
+    """a resource under which clause j has the truth value vals[j]"""
+    res = {}
+    for leaf, v in zip(ls, vals):
+        hit = v if leaf["op"] == "eq" else not v
+        res[f"k{leaf['i']}"] = ADV[leaf["v"]] if hit else "other " + ADV[leaf["v"]][::-1]
+    return res
+
+
 # ---- filter trees: ["prim", leaf] | [k, [children…]] with k in and/or/not/list ------------------------
 
 def leaves(t) -> List[Any]:
@@ -303,7 +322,8 @@ class C18(Prop):
             "nodes (thorough) plus random larger ones; leaves are boolean clause representatives of 24 top-level shapes (atom, !, &&, "
             "||, ?:, offhour-/onhour-like ?:, relation, in, call, index, parenthesised, a && (b || c), a || b && c, a string literal "
             "containing operators) or real Custodian clauses (value, marked-for-op, offhour, onhour, flow-logs, is-not-logging, ...) "
-            "through the real rewriters; all 2^k truth assignments to the k clauses (k <= 6; 64 random ones above), each realised by "
+            "through the real rewriters, and real `type: value` clauses over 16 adversarial strings (quotes, backslashes, brackets, "
+            "&& || ? : inside the literal) evaluated under resources fixing each clause's value; all 2^k truth assignments to the k clauses (k <= 6; 64 random ones above), each realised by "
             "variable bindings chosen per case. non-trivial = tree with a connective nested in a multi-child connective or a "
             "compound clause next to a sibling")
 
@@ -341,6 +361,12 @@ class C18(Prop):
             finally:
                 C7N_Rewriter.primitive = orig
             texts = [clause_text(l) for l in leaves(t)]
+        elif c["kind"] == "realval":
+            filt = to_c7n(t, realval_filter)
+            doc = yaml.safe_dump({"name": "p", "resource": "ec2", "filters": filt})
+            with contextlib.redirect_stdout(buf):
+                out = C7N_Rewriter.c7n_rewrite(doc)
+                texts = [C7N_Rewriter.primitive("ec2", realval_filter(l)) for l in leaves(t)]
         else:
             res = c["resource"]
             filt = to_c7n(t, lambda leaf: REAL[res][leaf])
@@ -393,6 +419,19 @@ class C18(Prop):
                 except Exception:
                     vals.append("E")
             ob["values"] = "".join(vals)
+        if c["kind"] == "realval" and ob["tree"] is not None:
+            if self._env is None:
+                self._env = celpy.Environment()
+            prog = self._env.program(self._env.compile(text))
+            vals = []
+            ls = leaves(c["f"])
+            for cv in self._assignments(c):
+                try:
+                    r = prog.evaluate({"resource": celpy.json_to_cel(realval_resource(ls, cv))})
+                    vals.append("1" if (type(r) is celtypes.BoolType and bool(r)) else ("0" if type(r) is celtypes.BoolType else "?"))
+                except Exception:
+                    vals.append("E")
+            ob["values"] = "".join(vals)
         return ob
 
     def impl(self, c):
@@ -401,7 +440,8 @@ class C18(Prop):
         except Exception as ex:
             return f"EXC {type(ex).__name__}"
         self._extra[G._key(c)] = ob
-        return f"text={deblank(ob['text'])} | values={ob.get('values', '-') if ob['tree'] is not None else 'parse-error'}"
+        shown = (ob.get("values", "-") if c["kind"] == "bool" else "-") if ob["tree"] is not None else "parse-error"
+        return f"text={deblank(ob['text'])} | values={shown}"
 
     # -- model ------------------------------------------------------------------------------------
     def model_line(self, c):
@@ -469,7 +509,7 @@ class C18(Prop):
         if got != w:
             return (f"{text!r} does not have the filter's structure: parsed as {G.show_obj(got)[:260]} "
                     f"but the filter means {G.show_obj(w)[:260]}")
-        if c["kind"] == "bool":
+        if c["kind"] in ("bool", "realval"):
             exp = []
             for cv in self._assignments(c):
                 d = dict(zip([l["i"] for l in leaves(c["f"])], cv))
@@ -478,8 +518,10 @@ class C18(Prop):
             if ob["values"] != exp:
                 k = next(i for i, (a, b) in enumerate(zip(ob["values"], exp)) if a != b)
                 cv = self._assignments(c)[k]
+                how = (f"bindings {self._bindings(c, cv, k)}" if c["kind"] == "bool"
+                       else f"resource {realval_resource(leaves(c['f']), cv)}")
                 return (f"{text!r} evaluates to {ob['values'][k]} under clause values {cv} "
-                        f"(bindings {self._bindings(c, cv, k)}), Custodian's combinators give {exp[k]}")
+                        f"({how}), Custodian's combinators give {exp[k]}")
         return None
 
     def nontrivial(self, c, out):
@@ -506,7 +548,7 @@ class C18(Prop):
         for n in range(1, (5 if quick else 6) + 1):
             trees += list(tree_shapes(n, 4))
         if quick:
-            for _ in range(260):
+            for _ in range(150):
                 trees.append(rand_tree(rng, rng.randint(6, 7), 4))
         else:
             seven = list(tree_shapes(7, 4))
@@ -527,17 +569,26 @@ class C18(Prop):
         pairs = [(s1, s2, conn) for s1, s2 in itertools.product(shapes_all, shapes_all) for conn in ("and", "or", "not", "list")]
         if quick:
             pairs = [p for p in pairs if p[0] in COMPOUND or p[1] in COMPOUND]
-            pairs = rng.sample(pairs, 360)
+            pairs = rng.sample(pairs, 260)
         for s1, s2, conn in pairs:
             if True:
                 cases.append({"kind": "bool", "f": [conn, [["prim", {"shape": s1, "i": 0}], ["prim", {"shape": s2, "i": 1}]]],
                               "seed": rng.randrange(1 << 16)})
         # real clauses
-        nreal = 250 if quick else 1500
+        nreal = 150 if quick else 1500
         for _ in range(nreal):
             res = rng.choice(list(REAL))
             t = rand_tree(rng, rng.randint(2, 7), 4)
             cases.append({"kind": "real", "resource": res, "f": fill(t, lambda i: rng.randrange(len(REAL[res])))})
+        # real `type: value` clauses with adversarial strings, evaluated against resources fixing each clause's value
+        rv_trees = []
+        for n in range(2, (4 if quick else 5) + 1):
+            rv_trees += list(tree_shapes(n, 4))
+        for _ in range(80 if quick else 1500):
+            rv_trees.append(rand_tree(rng, rng.randint(5, 7), 4))
+        for t in rv_trees:
+            cases.append({"kind": "realval", "seed": rng.randrange(1 << 16),
+                          "f": fill(t, lambda i: {"i": i, "v": rng.randrange(len(ADV)), "op": rng.choice(["eq", "eq", "ne"])})})
         cases.sort(key=lambda c: n_nodes(c["f"]))     # small inputs first
         return cases
 
